@@ -9,7 +9,9 @@ Inductive case :=
              (a : app) (r : request)
 | CaseClient (seed : list N)          (* the 16 bytes os.urandom returned *)
              (compress : bool) (subprotocols : option (list str))
-             (status : N) (s : sresponse).
+             (status : N) (s : sresponse)
+| CaseLoop (seed : list N) (compress : bool) (subprotocols : option (list str)) (host : str)
+           (a : app).               (* the real client talking to the real server *)
 
 Definition oopt (o : option str) : obs := match o with Some s => OBytes s | None => ONone end.
 
@@ -31,10 +33,10 @@ Definition obs_of_response (r : response) : obs :=
   end.
 
 (* ---- what the client sends ---- *)
-Definition client_offer_ext : str := s2l "permessage-deflate; client_max_window_bits".
 Definition client_key (seed : list N) : str := b64_encode seed.
-Definition client_extensions_header (compress : bool) : option str :=
-  if compress then Some client_offer_ext else None.
+
+Definition client_of (seed : list N) (compress : bool) (subs : option (list str)) : client :=
+  mkClient compress subs (client_key seed).
 
 (* ---- the connect future ---- *)
 Inductive connect_outcome :=
@@ -72,9 +74,6 @@ Definition obs_of_outcome (k : connect_outcome) : obs :=
   | KOut => OTag "OutOfModel"
   end.
 
-Definition client_of (seed : list N) (compress : bool) (subs : option (list str)) : client :=
-  mkClient compress subs (client_key seed).
-
 Definition run_case (c : case) : obs :=
   match c with
   | CaseServer b a r => obs_of_response (handshake sha1 (fun _ => b) a r)
@@ -90,6 +89,18 @@ Definition run_case (c : case) : obs :=
                 oopt (client_extensions_header compress);        (* Sec-WebSocket-Extensions sent *)
                 obs_of_outcome (connect_outcome_of status r2);   (* connect future *)
                 obs_of_cresult r ]                               (* _process_server_headers called directly *)
+      end
+  | CaseLoop seed compress subs host a =>
+      let cl := client_of seed compress subs in
+      match loopback sha1 (fun _ => true) a cl host with
+      | (_, Some COut) => OTag "OutOfModel"
+      | (ROut, _) => OTag "OutOfModel"
+      | (R101 acc sub ext, Some cr) =>
+          (* server status, subprotocol seen by open(), Sec-WebSocket-Extensions sent, connect future *)
+          OList [OInt 101; oopt sub; oopt ext; obs_of_outcome (connect_outcome_of 101 cr)]
+      | (resp, _) =>
+          OList [OInt (Z.of_N (status_of_response resp)); ONone; ONone;
+                 obs_of_outcome (connect_outcome_of (status_of_response resp) CKeyError)]
       end
   end.
 
@@ -169,8 +180,29 @@ Definition check_client (seed : list N) (compress : bool) (subs : option (list s
   | _ => false
   end.
 
+(* client and server must agree: the connect future resolves exactly when the server answered
+   101, with the subprotocol the server-side open() saw, one the client offered, and with
+   compression on both sides or on neither (and only when both enabled it) *)
+Definition check_loop (compress : bool) (subs : option (list str)) (a : app) (o : obs) : bool :=
+  match o with
+  | OList [OInt 101%Z; ssub; sext; OList [OTag "Resolved"; csub; OBool d]] =>
+      obs_eqb ssub csub
+      && match sext with ONone => negb d | OBytes _ => d && compress && a_compress a | _ => false end
+      && match csub with
+         | ONone => true
+         | OBytes p => match subs with
+                       | Some l => mem_str p (flat_map (fun x => map strip (split_all 44 x)) l)
+                       | None => false
+                       end
+         | _ => false
+         end
+  | OList [OInt z; ONone; ONone; OTag _] => negb (z =? 101)%Z
+  | _ => false
+  end.
+
 Definition check_case (c : case) (o : obs) : bool :=
   match c with
   | CaseServer b a r => check_server b a r o
   | CaseClient seed compress subs status s => check_client seed compress subs status s o
+  | CaseLoop seed compress subs host a => check_loop compress subs a o
   end.
